@@ -3,6 +3,7 @@ package dastard
 // C04 — Lancero ingest: frame alignment, channel order, err/fb pairing, external triggers.
 
 import (
+	"sync/atomic"
 	"time"
 )
 
@@ -17,6 +18,7 @@ type c04Card struct {
 	now      int64
 	times    []int64 // time stamp returned with each call
 	relLog   []int
+	limit    int32 // see AvailableBuffer
 }
 
 func (c *c04Card) ChangeRingBuffer(int, int) error                { return nil }
@@ -31,6 +33,14 @@ func (c *c04Card) Wait() (time.Time, time.Duration, error) {
 	return time.Unix(0, c.now), 0, nil
 }
 func (c *c04Card) AvailableBuffer() ([]byte, time.Time, error) {
+	// limit (if set): the script does not advance beyond that many entries — natively the
+	// reader's own ticker calls this more often than the harness's ticks
+	if lim := int(atomic.LoadInt32(&c.limit)); lim > 0 && c.calls >= lim {
+		if c.avail < c.released {
+			c.avail = c.released
+		}
+		return c.data[c.released:c.avail], time.Unix(0, c.now), nil
+	}
 	if c.calls < len(c.ends) {
 		c.avail = c.ends[c.calls]
 		c.now = c.times[c.calls]
@@ -338,6 +348,9 @@ func verifC04Mix() {
 	ls.mixRequests = make(chan *MixFractionObject, 10)
 	ls.currentMix = make(chan []float64, 10)
 	ls.nextBlock = make(chan *dataBlock)
+	atomic.StoreInt32(&card.limit, 1) // nothing beyond the first read until the first mix is set
+	card.ends = append([]int{0}, card.ends...)
+	card.times = append([]int64{500000}, card.times...)
 	ls.launchLanceroReader()
 	ks := make([]int, nblocks)
 	fbChans := []int{1, 3}
@@ -351,6 +364,7 @@ func verifC04Mix() {
 		if err == nil && len(cur) == 4 {
 			vCheck(cur[1] == fr && cur[3] == fr && cur[0] == 0 && cur[2] == 0, "the reply reports the new mix of the feedback channels")
 		}
+		atomic.StoreInt32(&card.limit, int32(b+2)) // the card delivers the next three frames
 		vAdvance(70)
 		blk := <-ch
 		vCheck(blk != nil && blk.err == nil, "a block follows the mix change")
